@@ -495,13 +495,14 @@ def run(ctx):
         'ray-crossing, envelope and segment-classification theorems are over Z (doubles read as grid integers)',
         'the proper intersection point is modelled exactly (homogeneous integers); its binary64 rounding is checked on the implementation output only',
         'isCCW = sign of the shoelace area is tested on generated simple rings, not proved (C07_isccw_partial)',
+        'arbitrary finite doubles: antisymmetry of the orientation index under every swap of two arguments, symmetry of the LineIntersector '
+        'class under swapping / reversing the segments and invariance of ring location under reversal are REQUIRED (C07-F2 fixed in 4bee31ef6)',
         'correspondence is sampled (generator quality bounds it)']
     from translator.units import BY_PROPERTY
     units = BY_PROPERTY.get('C07', [])
     ok_build = ctx.build_repo('rel')
     ctx.translate(units)
     ok_coq, ax = ctx.coq_build('Properties_C07')
-    ok_coq = fix_axioms_header(ctx, ok_coq, ax)
     drv = ctx.ocaml_driver('C07')
     hexe = os.path.join(BUILD, 'bin', 'c07')
     if not ok_build or not ctx.cxx(os.path.join(ROOT, 'harness/c07.cpp'), hexe, 'rel'):
@@ -597,32 +598,7 @@ def run(ctx):
 KNOWN_TEXT = {
     'KF:': ('zero-length segment lying on the other segment',
             'LineIntersector reports COLLINEAR_INTERSECTION (2 equal points) for a zero-length segment lying on the other segment'),
-    'KF2:': ('orientation determinant beyond double-double resolution',
-             'orientation index / segment classification / ring location not (anti)symmetric on non-grid doubles whose orientation '
-             'determinant is below the resolution of the double-double evaluation'),
 }
-
-
-def fix_axioms_header(ctx, ok, ax):
-    """vlib.core._assumptions also matches the header line `Axioms:` that Print Assumptions prints before a non-empty axiom
-    list and then reports the word `Axioms` as a non-whitelisted axiom. Drop exactly that artefact (every real axiom name is
-    still checked against the whitelist) and run the hygiene gate that coq_build skipped. Reported to the lead."""
-    from vlib.core import AXIOM_WHITELIST, AXIOM_PREFIX_WHITELIST
-    if ok or 'Axioms' not in ax:
-        return ok
-    real = [a for a in ax if a != 'Axioms']
-    bad = [a for a in real if not (a in AXIOM_WHITELIST or a.startswith(AXIOM_PREFIX_WHITELIST))]
-    mine = [b for b in ctx.broken if b.get('kind') == 'proof' and b.get('name') == 'Print Assumptions']
-    if bad or len(mine) != 1 or "['Axioms']" not in mine[0].get('detail', ''):
-        return ok
-    ctx.broken.remove(mine[0])
-    ctx.cov['trusted_base'] = sorted(set(ctx.cov['trusted_base']) - {'Axioms'})
-    g = ctx.hygiene()
-    if g:
-        ctx.broken.append(dict(kind='proof', name='hygiene gate', detail=g))
-        return False
-    ctx.log('coq ok (axioms: %s)' % sorted(real))
-    return True
 
 
 def match_known(ctx, meta, why):
@@ -631,19 +607,6 @@ def match_known(ctx, meta, why):
         if why.startswith(pre):
             return ctx.known_match(lambda k: k.get('key', {}).get('input_class') == cls), pre
     return None, None
-
-
-def beyond_dd(a, b, c):
-    """exact test on three points with Fraction coordinates: the orientation determinant (as evaluated by
-    CGAlgorithmsDD::orientationIndex: (b-a) x (c-b)) is zero or below 2^-100 of its two products, while the coordinate
-    differences are not all representable in binary64 — the double-double products are then rounded"""
-    dx1, dy1, dx2, dy2 = b[0] - a[0], b[1] - a[1], c[0] - b[0], c[1] - b[1]
-    scale = abs(dx1 * dy2) + abs(dy1 * dx2)
-    if scale == 0:
-        return False
-    d = dx1 * dy2 - dy1 * dx2
-    wide = any(Fraction(float(v)) != v for v in (dx1, dy1, dx2, dy2))
-    return wide and abs(d) * 2 ** 100 <= scale
 
 
 # ------------------------------------------------------------------------------------------------ orientation
@@ -967,8 +930,7 @@ def build_float(ctx, rng, st, bump, n):
                 if any(x.startswith('EXC') for x in t):
                     return 'exception on finite doubles: %s' % io
                 if int(t[3]) != -int(t[0]) or int(t[4]) != -int(t[0]):
-                    pre = 'KF2: ' if any(beyond_dd(fr(x), fr(y), fr(z)) for x, y, z in ((a, b, cpt), (b, a, cpt), (a, cpt, b))) else ''
-                    return pre + 'orientationIndex not antisymmetric under swapping two arguments: index(a,b,c) = %s, index(b,a,c) = %s, index(a,c,b) = %s' % (t[0], t[3], t[4])
+                    return 'orientationIndex not antisymmetric under swapping two arguments: index(a,b,c) = %s, index(b,a,c) = %s, index(a,c,b) = %s' % (t[0], t[3], t[4])
                 if t[2] != t[0]:
                     return 'GEOSOrientationIndex_r = %s, CGAlgorithmsDD::orientationIndex = %s' % (t[2], t[0])
                 if mo is not None and mo.split() != t[:2]:
@@ -1037,10 +999,7 @@ def build_float(ctx, rng, st, bump, n):
                 heads = [p.split(' | ')[0].split()[:2] for p in parts]
                 caps = [p.split(' | ')[1].split()[0] for p in parts]
                 if heads[0] != heads[1] or heads[0] != heads[2] or len(set(caps)) != 1:
-                    f = [fr(p) for p in pts]
-                    trip = [(f[0], f[1], f[2]), (f[0], f[1], f[3]), (f[2], f[3], f[0]), (f[2], f[3], f[1])]
-                    pre = 'KF2: ' if any(beyond_dd(a, b, c) or beyond_dd(b, a, c) for a, b, c in trip) else ''
-                    return pre + 'LineIntersector class / proper flag / GEOSSegmentIntersection_r result changes under swapping or reversing the segments: %s %s' % (heads, caps)
+                    return 'LineIntersector class / proper flag / GEOSSegmentIntersection_r result changes under swapping or reversing the segments: %s %s' % (heads, caps)
                 return None
             st.add('SB ' + ' '.join(hx(v) for p in pts for v in p), chk, kind='float-seg', nontrivial=True)
         else:                                    # ring location on arbitrary doubles: no crash, same answer for the reversed ring
@@ -1064,8 +1023,7 @@ def build_float(ctx, rng, st, bump, n):
                     return 'exception on finite doubles: ' + io[:200]
                 f, r = io.split(' | ')
                 if f.split()[:3] != r.split()[:3]:
-                    pre = 'KF2: ' if any(beyond_dd(fr(a), fr(b), fr(p)) or beyond_dd(fr(b), fr(a), fr(p)) for a, b in zip(ring, ring[1:])) else ''
-                    return pre + 'ring location changes when the ring is reversed: %s vs %s' % (f, r)
+                    return 'ring location changes when the ring is reversed: %s vs %s' % (f, r)
                 return None
             st.add('RB %s %s %d %s' % (hx(p[0]), hx(p[1]), len(ring), ' '.join('%s %s' % (hx(x), hx(y)) for x, y in ring)), chk, kind='float-ring', nontrivial=True)
 
@@ -1091,6 +1049,18 @@ def corpus_check(line):
             t = io.split()
             if t[0] != str(s) or t[1] != str(s) or t[2] != str(-s) or t[4] != str(-s):
                 return 'orientation %s, exact sign %d' % (io, s)
+            return None
+        return chk
+    if tag == 'OB':                      # arbitrary doubles: antisymmetry under both swaps, model = implementation
+
+        def chk(io, mo):
+            t = io.split()
+            if any(x.startswith('EXC') for x in t):
+                return 'exception on finite doubles: %s' % io
+            if int(t[3]) != -int(t[0]) or int(t[4]) != -int(t[0]):
+                return 'orientationIndex not antisymmetric under swapping two arguments: index(a,b,c) = %s, index(b,a,c) = %s, index(a,c,b) = %s' % (t[0], t[3], t[4])
+            if mo is not None and mo.split() != t[:2]:
+                return 'generated binary64 units (orientationIndex, filter) = %s, implementation = %s %s' % (mo, t[0], t[1])
             return None
         return chk
     return nop
